@@ -3,7 +3,8 @@ import copy, json
 from vlib import core, gen, runsc, corr
 
 LEVEL = "proof"
-TEXT = ("merge_assoc, merge_empty_left/right, the per-attribute rules (scalars: later wins; mappings: key-wise union, later wins; arguments: later non-empty replaces; "
+TEXT = ("files_read_in_documented_order / read_order_spelled_out: for every world (whatever Glob, Clean and reading return) the input a run compiles is the left fold of merge over the files in documented order — the patterns in the order of the -i options, within one pattern the cleaned matches in byte-wise ascending order (a permutation of the matches, pairwise ordered); an unreadable file contributes nothing. "
+        "merge_assoc, merge_empty_left/right, the per-attribute rules (scalars: later wins; mappings: key-wise union, later wins; arguments: later non-empty replaces; "
         "calls/tags/decorators: concatenation in file order; services merged key-wise) and split invariance (any key partition of a mapping, attribute-level splits of a "
         "service with list attributes cut into prefix/suffix, decorators cut into prefix/suffix) are Lean theorems for ALL inputs; equivalent inputs are "
         "indistinguishable to the sorted-key consumers (equiv_sorted_services). The model's merge is compared with input.Merge on random documents and splits; "
